@@ -386,6 +386,36 @@ pub fn replay_json(prop: &str, ctx: &SpecCtx, case: &Case, reason: &str, exp: &T
     })
 }
 
+/// Replay tier: shrunk failures of earlier (seeded or real) defects, committed under
+/// /verif/corpus/<ID>/*.json in the Engine A replay format. Each entry is re-run first, as a plain
+/// regression case that does not depend on the random generators.
+pub fn load_corpus(prop_id: &str) -> Vec<(Spec, Case)> {
+    let dir = verif("corpus").join(prop_id);
+    let mut files: Vec<std::path::PathBuf> = match std::fs::read_dir(&dir) {
+        Ok(rd) => rd.flatten().map(|e| e.path()).filter(|p| p.extension().map(|x| x == "json").unwrap_or(false)).collect(),
+        Err(_) => return vec![],
+    };
+    files.sort();
+    let mut out = vec![];
+    for f in files {
+        let text = match std::fs::read_to_string(&f) {
+            Ok(t) => t,
+            Err(_) => continue,
+        };
+        let v: Value = match serde_json::from_str(&text) {
+            Ok(v) => v,
+            Err(_) => continue,
+        };
+        if v["engine"].as_str() != Some("A") || v["case"].is_null() {
+            continue;
+        }
+        if let Ok(spec) = serde_json::from_value::<Spec>(v["spec"].clone()) {
+            out.push((spec, case_from_json(&v["case"])));
+        }
+    }
+    out
+}
+
 /// Generates the specs of all profiles; returns (profile name, spec) in a fixed order.
 pub fn generate_specs(prop: &dyn Prop, tier: Tier) -> Vec<(&'static str, Spec)> {
     let mut out = vec![];
@@ -746,8 +776,10 @@ pub fn prepare(crate_name: &str, specs: Vec<(&'static str, Spec)>) -> Prepared {
     let mut res = pipe::expand_all(&defs, Duration::from_secs(20), false, 12);
     // A timeout or a dead worker under load is re-tried alone with a tripled budget before the
     // definition is given up (a time budget hit must not turn into a verdict by accident).
+    let mut retried = 0;
     for i in 0..res.len() {
-        if matches!(res[i], Expand::Timeout(_) | Expand::Died) {
+        if matches!(res[i], Expand::Timeout(_) | Expand::Died) && retried < 5 {
+            retried += 1;
             let mut w = pipe::Worker::new();
             res[i] = w.expand(&defs[i], false, Duration::from_secs(60));
         }
@@ -791,7 +823,13 @@ pub fn run(prop: &dyn Prop, tier: Tier) -> i32 {
 /// (0 held, 1 violation reported, 2 infrastructure trouble).
 pub fn run_collect(prop: &dyn Prop, tier: Tier) -> (Evidence, i32) {
     let mut ev = Evidence::new(prop.id(), tier);
-    let specs = generate_specs(prop, tier);
+    let mut specs = generate_specs(prop, tier);
+    let mut corpus_cases: std::collections::HashMap<usize, Vec<Case>> = std::collections::HashMap::new();
+    for (spec, case) in load_corpus(prop.id()) {
+        corpus_cases.entry(specs.len()).or_default().push(case);
+        specs.push(("corpus", spec));
+    }
+    let n_corpus = corpus_cases.len();
     let n_specs = specs.len();
     let selftest_cases = match oracle_selftest(prop, &specs, tier) {
         Ok(n) => n,
@@ -831,6 +869,7 @@ pub fn run_collect(prop: &dyn Prop, tier: Tier) -> (Evidence, i32) {
         for bin in &prep.build.bins {
             let total = &total;
             let prep = &prep;
+            let corpus_cases = &corpus_cases;
             s.spawn(move || {
                 let mut server = Server::new(&bin.path, prop.per_case_timeout_ms());
                 let mut st = Stats::default();
@@ -842,7 +881,13 @@ pub fn run_collect(prop: &dyn Prop, tier: Tier) -> (Evidence, i32) {
                     };
                     let mut r = runner(seed(), &format!("{}-cases-{}", prop.id(), si));
                     let spec_t0 = std::time::Instant::now();
-                    let cases = prop.cases(&ctx, &mut comp, &mut r, tier);
+                    let mut cases = prop.cases(&ctx, &mut comp, &mut r, tier);
+                    if let Some(extra) = corpus_cases.get(&si) {
+                        // saved failing cases first
+                        let mut v = extra.clone();
+                        v.append(&mut cases);
+                        cases = v;
+                    }
                     if std::env::var("VERIF_DEBUG").is_ok() {
                         eprintln!("[debug] spec {} ({} cases generated in {:.1}s)", si, cases.len(), spec_t0.elapsed().as_secs_f64());
                     }
@@ -1060,6 +1105,7 @@ pub fn run_collect(prop: &dyn Prop, tier: Tier) -> (Evidence, i32) {
     ev.set("build_secs", json!(prep.build.build_secs));
     ev.set("exhaustive", json!(false));
     ev.set("oracle_selftest_cases", json!(selftest_cases));
+    ev.set("replay_tier_entries", json!(n_corpus));
     ev.set("coverage_guided_stage", fuzz_info);
     ev.assumptions = vec![
         "rustc, cargo, proptest, unicode-width and the oracle crate (reference model) are trusted; the reference is cross-checked on a sample of this run's cases against a second, independently written reference (oracle_selftest_cases)".into(),
